@@ -342,6 +342,23 @@ def digest(prog, run):
 
 
 # --------------------------------------------------------------------------- managers
+def _completes_promise(g):
+    return any(g.cname(m).endswith('::finish') and 'QXmppPromise' in g.cname(m) for _, m in g.calls())
+
+
+def _is_finish_call(prog, f, n):
+    """the call completes the pending authentication promise: promise.finish(..), the local `finish` lambda, a local lambda under another name or a
+    member helper (also a member template: its instantiations are resolved) whose body completes a QXmppPromise"""
+    if (n.get('op') == '()' and n.get('opargs') and f.nodes[f.skip(n['opargs'][0])].get('name') == 'finish') or f.cname(n).endswith('::finish'):
+        return True
+    if n.get('op') == '()' and n.get('opargs'):
+        tgt = f.nodes[f.resolve(n['opargs'][0])]
+        return tgt['k'] == 'lambda' and any(_completes_promise(l) for l in prog.lambda_fns(f, tgt))
+    if not n.get('op'):
+        return any(_completes_promise(g) for g in prog.callee_fns(f, n) if g.entry is not None and len(g.nodes) < 200)
+    return False
+
+
 def managers(prog, run):
     r3 = run.rule('C06.R3', 'a manager reports success only behind a check on the mechanism object (the exchange completed / the server was verified); '
                             'data carried by <success/> is handed to the mechanism', floor=4)
@@ -363,7 +380,7 @@ def managers(prog, run):
             return False
         for i, n in fn.calls():
             args = n.get('opargs', [None])[1:] if n.get('op') == '()' else n.get('args', [])
-            is_finish = (n.get('op') == '()' and fn.nodes[fn.skip(n['opargs'][0])].get('name') == 'finish') or fn.cname(n).endswith('::finish')
+            is_finish = _is_finish_call(prog, fn, n)
             if is_finish and any(a is not None and carries_success(a) for a in args):
                 succ_sites.append(i)
         if not succ_sites:
@@ -429,7 +446,7 @@ def managers(prog, run):
         def rej_transfer(f, nid, st):
             n = f.nodes[nid]
             if n['k'] == 'call':
-                is_finish = (n.get('op') == '()' and f.nodes[f.skip(n['opargs'][0])].get('name') == 'finish') or f.cname(n).endswith('::finish')
+                is_finish = _is_finish_call(prog, f, n)
                 if is_finish:
                     return st + ('finish',)
             if n['k'] == 'ret' and 'e' in n:
